@@ -30,6 +30,21 @@ Scenario (JSON-able, replayable):  {"domain": d, "ops": [op, ...]}  with
 `replay(scenario, clause)` re-executes a scenario and tells whether `clause` is violated after
 (or while executing) its LAST operation.
 
+Clauses (obligation names C16/bounded/<domain>/<clause>, domain in unit|pi|lshape):
+  invariant on the real object (`well_formed`, after every operation of every part):
+    tiling, balance, vertex-unique, leaf-bookkeeping, levels, nbrs-map
+  operations:
+    refine-completes                 refine(leaf) returns (no exception, no time-out)
+    refine-matches-reference         leaves / all elements / vertex set equal the reference's (2:1 closure as a
+                                     least fixed point), also after uniform_refine and refine_msh_bdr
+    uniform-refine-completes         uniform_refine() on a mesh whose leaves all have the same level
+    uniform-refine-graded-completes  uniform_refine() on a graded mesh (kept apart: the repository only ever
+                                     calls it on uniform meshes; on graded ones the outcome depends on the
+                                     iteration order of a set of objects)
+  boundary targeting:
+    bdr-terminates (returns normally within the guard), bdr-returns-leaf-with-that-edge,
+    bdr-exactly-one-leaf, bdr-endpoints-retrievable
+
 Interface for the check:  run(chk, tier, seed).
 CLI for debugging:        python -m bounded.initial_explorer quick|thorough [seed]
 """
@@ -80,8 +95,15 @@ BDR_CLAUSES = ("bdr-terminates", "bdr-returns-leaf-with-that-edge", "bdr-exactly
 ALL_CLAUSES = WF_CLAUSES + OP_CLAUSES + BDR_CLAUSES
 # clauses whose violation depends on the iteration order of a set of objects (hash = address)
 ORDER_DEPENDENT = ("uniform-refine-graded-completes",)
+# Observed but NOT part of C16's statement (which quantifies over sequences of cell refinements and the boundary
+# targeting): uniform_refine() on an already graded mesh can abort with an AssertionError in bisect_edge (the mesh
+# stays well formed).  Reported as a note in the evidence, never as a violation of C16.
+OUTSIDE_STATEMENT = ("uniform-refine-graded-completes",)
 
 GUARD_REFINE, GUARD_UNIFORM, GUARD_BDR = 10.0, 30.0, 5.0
+UNIFORM_DEPTH = 2        # BFS states up to this depth additionally get one uniform_refine()
+PAIRWISE_MAX = 120       # up to this many leaves tiling and balance are also decided by the all-pairs definition
+MAX_RANDOM_LEVEL = 20    # random histories do not refine leaves of this level (canonical scale is 2^30)
 
 
 # ------------------------------------------------------------------------------------------------
@@ -273,7 +295,7 @@ def segment(domain, piece, l, k):
 def as_input(pt, kind):
     x, y = pt
     if kind == "tuple":   # python ints where integral, like the repository's own calls `(1, 0.5)`
-        return tuple(int(v) if float(v).is_integer() and abs(v) < 4 and v != math.pi else v for v in (x, y))
+        return tuple(int(v) if float(v).is_integer() else v for v in (x, y))
     if kind == "list":
         return [float(x), float(y)]
     return np.array([[float(x)], [float(y)]])
@@ -420,13 +442,21 @@ def inspect(mesh, domain, max_msgs=3):
                                                                          Fraction(area, total).denominator))
     cells = list(leaf_cells)
     boxes = [cell_box(c) for c in cells]
-    small = len(cells) <= 160
-    if small:   # definitional cross-check: pairwise positive-area overlap
-        for a in range(len(boxes)):
-            for b in range(a + 1, len(boxes)):
+    jumps = []
+    if len(cells) <= PAIRWISE_MAX:   # definitional cross-check of tiling and balance, all pairs of leaves
+        nb = len(boxes)
+        for a in range(nb):
+            ax0, ay0, ax1, ay1 = boxes[a]
+            la = cells[a][0]
+            for b in range(a + 1, nb):
+                bx0, by0, bx1, by1 = boxes[b]
+                if ax1 < bx0 or bx1 < ax0 or ay1 < by0 or by1 < ay0:
+                    continue   # closures disjoint
                 if overlap_positive(boxes[a], boxes[b]):
                     bad("tiling", "overlap: leaves {!r} and {!r} overlap (pairwise test)".format(
                         leaf_cells[cells[a]], leaf_cells[cells[b]]))
+                elif abs(la - cells[b][0]) > 1 and share_edge_piece(boxes[a], boxes[b]):
+                    jumps.append((a, b))
     view.leaf_cells = leaf_cells
     view.n_leaves = len(leaf_cells)
 
@@ -440,13 +470,9 @@ def inspect(mesh, domain, max_msgs=3):
                     bad("balance", "level-jump: leaf {!r} (level {}) is edge-adjacent to leaf {!r} (level {})".format(
                         e, l, leaf_cells[a], l - k))
                     break
-    if small:   # definitional cross-check
-        for a in range(len(boxes)):
-            for b in range(a + 1, len(boxes)):
-                if abs(cells[a][0] - cells[b][0]) > 1 and share_edge_piece(boxes[a], boxes[b]):
-                    bad("balance", "level-jump: leaves {!r} and {!r} share an edge piece, levels {} and {} "
-                        "(pairwise test)".format(leaf_cells[cells[a]], leaf_cells[cells[b]], cells[a][0],
-                                                 cells[b][0]))
+    for a, b in jumps:
+        bad("balance", "level-jump: leaves {!r} and {!r} share an edge piece, levels {} and {} "
+            "(pairwise test)".format(leaf_cells[cells[a]], leaf_cells[cells[b]], cells[a][0], cells[b][0]))
 
     # ---- vertex-unique ---------------------------------------------------------------------------
     seen, vkeys = {}, set()
@@ -558,6 +584,7 @@ class Runner:
         self.view = None
         self.evaluated = []     # clauses evaluated by the last apply()
         self.skipped = None     # reason the last op was out of the operation's domain
+        self.last_scenario = {"domain": domain, "ops": []}   # scenario up to and including the last op
 
     # -- helpers --------------------------------------------------------------------------------
     def scenario(self):
@@ -621,12 +648,24 @@ class Runner:
         self.ref = RefMesh(self.domain, leaves=list(v.leaf_cells),
                            cells=[c for c in v.elem_cells.values() if c is not None])
         self.dead = None
+        # replace the history by a pure refine history that generates the same leaf set, so that
+        # whatever is found later has a deterministic replay
+        sim, ops = RefMesh(self.domain), []
+        for c in sorted(self.ref.cells - set(self.ref.leaves)):
+            if c in sim.leaves:
+                ops.append(["refine"] + list(c))
+                sim.refine(c)
+        if set(sim.leaves) != set(self.ref.leaves):
+            self.dead = "state after the aborted uniform_refine is not a balanced refinement"
+            return
+        self.ops = ops
 
     # -- operations -----------------------------------------------------------------------------
     def apply(self, op, check=True):
         """Execute one scenario operation on real mesh and reference.  -> [(clause, message)]"""
         assert self.dead is None, self.dead
         self.ops.append(list(op))
+        self.last_scenario = self.scenario()
         self.evaluated, self.skipped = [], None
         kind = op[0]
         if kind == "refine":
@@ -833,6 +872,11 @@ def replay_code(scenario, clause):
 # ------------------------------------------------------------------------------------------------
 # aggregation
 # ------------------------------------------------------------------------------------------------
+def _weight(scenario):
+    """Length of a scenario for 'shortest first': a boundary call at level l counts as its l+1 steps."""
+    return sum(op[2] + 1 if op[0] == "bdr" else 1 for op in scenario["ops"])
+
+
 def _sig(msg):
     head = msg.split(":", 1)[0]
     return head if len(head) <= 40 else head[:40]
@@ -855,14 +899,15 @@ class Agg:
             self.evals[(d, c)] = self.evals.get((d, c), 0) + 1
         for c, m in fails:
             key = (d, c, _sig(m))
-            sc = runner.scenario()
+            sc = runner.last_scenario
             cur = self.fails.get(key)
+            w = _weight(sc)
             if cur is None:
-                self.fails[key] = dict(n=1, nops=len(sc["ops"]), scenario=sc, msg=m)
+                self.fails[key] = dict(n=1, nops=w, scenario=sc, msg=m)
             else:
                 cur["n"] += 1
-                if (len(sc["ops"]), repr(sc)) < (cur["nops"], repr(cur["scenario"])):
-                    cur.update(nops=len(sc["ops"]), scenario=sc, msg=m)
+                if w < cur["nops"] or (w == cur["nops"] and repr(sc) < repr(cur["scenario"])):
+                    cur.update(nops=w, scenario=sc, msg=m)
 
     def count(self, part, domain, n=1, skipped=0):
         self.ops[(part, domain)] = self.ops.get((part, domain), 0) + n
@@ -914,6 +959,11 @@ def _bfs_expand(args):
         if base.dead:      # cannot happen for a state that was admitted to the frontier
             agg.note(base, [("refine-completes", "prefix-replay: {}".format(base.dead))])
             continue
+        if len(hist) <= UNIFORM_DEPTH:   # uniform_refine() on every state of small depth
+            r, _ = run_ops(domain, ops, check_last=False)
+            agg.note(r, r.apply(["uniform"]))
+            agg.count("bfs", domain)
+            agg.count("bfs-uniform", domain)
         for cell in sorted(base.ref.leaves):
             r, _ = run_ops(domain, ops, check_last=False)
             fails = r.apply(["refine"] + list(cell))
@@ -1020,8 +1070,8 @@ def _random_history(args):
                 cell = rng.choice(sorted(cand)) if cand and rng.random() < 0.8 else rng.choice(leaves)
             else:
                 cell = rng.choice(leaves)
-            if cell[0] >= LOG_SCALE - 2:
-                cell = min(leaves)
+            if cell[0] >= MAX_RANDOM_LEVEL:
+                cell = rng.choice([c for c in leaves if c[0] < MAX_RANDOM_LEVEL])
             op = ["refine"] + list(cell)
         fails = r.apply(op)
         agg.note(r, fails)
@@ -1119,9 +1169,9 @@ def _confirm(code):
 # entry point
 # ------------------------------------------------------------------------------------------------
 TIERS = {
-    "quick": dict(depth={"unit": 4, "pi": 4, "lshape": 3}, histories=6, steps=60, cap=3000,
-                  L=6, prefined=60, prefined_calls=6),
-    "thorough": dict(depth={"unit": 5, "pi": 5, "lshape": 4}, histories=32, steps=200, cap=3000,
+    "quick": dict(depth={"unit": 5, "pi": 5, "lshape": 4}, histories=12, steps=60, cap=3000,
+                  L=8, prefined=200, prefined_calls=6),
+    "thorough": dict(depth={"unit": 6, "pi": 5, "lshape": 5}, histories=32, steps=200, cap=3000,
                      L=10, prefined=600, prefined_calls=8),
 }
 
@@ -1161,7 +1211,7 @@ def run(chk, tier, seed, workers=None):
         return pool.imap_unordered(fn, tasks, chunksize=1)
 
     try:
-        # ---- (b) + (c) are submitted first (long independent tasks), (a) is level-synchronous ----
+        # ---- (b) is submitted first (long independent tasks), (a) is level-synchronous, (c) fills the tail ----
         t0 = time.time()
         rnd_tasks = [(d, seed * 100003 + h, p["steps"], p["cap"]) for h in range(p["histories"]) for d in DOMAINS]
         bdr_tasks = []
@@ -1170,25 +1220,29 @@ def run(chk, tier, seed, workers=None):
             for ch in _chunks(items, max(1, len(items) // 150)):
                 bdr_tasks.append((d, ch))
         pre_tasks = [(d, seed * 100003 + n, p["prefined_calls"], p["L"]) for n in range(p["prefined"]) for d in DOMAINS]
-        if pool is not None:
+        if pool is not None:   # long tasks first; the many small boundary tasks fill the tail
             async_rnd = pool.map_async(_random_history, rnd_tasks, chunksize=1)
-            async_bdr = pool.map_async(_bdr_fresh, bdr_tasks, chunksize=1)
-            async_pre = pool.map_async(_bdr_prefined, pre_tasks, chunksize=4)
 
         bfs = part_bfs(pool_map, p["depth"], agg, nworkers)
-        timing["bfs_s"] = round(time.time() - t0, 2)
+        timing["bfs_and_random_s"] = round(time.time() - t0, 2)
 
         if pool is not None:
+            async_bdr = pool.map_async(_bdr_fresh, bdr_tasks, chunksize=1)
+            async_pre = pool.map_async(_bdr_prefined, pre_tasks, chunksize=4)
             rnd_res, bdr_res, pre_res = async_rnd.get(), async_bdr.get(), async_pre.get()
         else:
             rnd_res = [_random_history(t) for t in rnd_tasks]
             bdr_res = [_bdr_fresh(t) for t in bdr_tasks]
             pre_res = [_bdr_prefined(t) for t in pre_tasks]
         timing["all_parts_s"] = round(time.time() - t0, 2)
-    finally:
+    except BaseException:
         if pool is not None:
-            pool.close()
+            pool.terminate()
             pool.join()
+        raise
+    if pool is not None:
+        pool.close()
+        pool.join()
 
     rnd_states = {d: set() for d in DOMAINS}
     for d, hashes, a in rnd_res:
@@ -1247,17 +1301,20 @@ def run(chk, tier, seed, workers=None):
     failed_clauses = set()
     for (d, c, n, sig, f, code), res in zip(todo, outcomes):
         failed_clauses.add((d, c))
+        if c in OUTSIDE_STATEMENT:
+            chk.notes.append("observation outside C16's statement: {}/{}: {} ({})".format(d, c, f["msg"], describe(f["scenario"])[:3]))
+            continue
         name = "{}/bounded/{}/{}".format(PID, d, c) + ("" if n == 0 else "/witness={}".format(n + 1))
         confirmed = bool(res and res.get("violated"))
         chk.add(Ob(name, FAILED, kind="bounded", backend="explorer",
-                   detail=dict(message=f["msg"], signature=sig, occurrences=f["n"], operations=f["nops"],
+                   detail=dict(message=f["msg"], signature=sig, occurrences=f["n"], scenario_length=f["nops"],
                                calls=describe(f["scenario"]), scenario=f["scenario"],
                                distinct_signatures_for_clause=len(by_clause[(d, c)]),
                                evaluations=agg.evals.get((d, c), 0)),
                    replay=dict(code=code, confirmed=confirmed, raises_is_violation=True, outcome=res)))
     for d in DOMAINS:
         for c in ALL_CLAUSES:
-            if (d, c) in failed_clauses:
+            if (d, c) in failed_clauses or c in OUTSIDE_STATEMENT:
                 continue
             n = agg.evals.get((d, c), 0)
             if n > 0:
